@@ -127,7 +127,8 @@ impl Phase for Programs {
             let ast = random_program(r, 6);
             render_ast(&ast, if r.chance(1, 2) { Parens::Minimal } else { Parens::Random }, Some(r), true)
         } else {
-            let alpha = gen::alphabet_all();
+            let mut alpha = gen::alphabet_all();
+            alpha.extend(["×", "÷", "−", "∗", "⁄"].iter().map(|w| gen::tok(w)));
             let n = r.range(1, 10);
             (0..n).map(|_| r.pick(&alpha).clone()).collect()
         };
@@ -305,7 +306,8 @@ pub fn phases(cfg: &Cfg) -> Vec<Box<dyn Phase>> {
         }),
         Box::new(Sweep {
             label: "all-operators+words(39)",
-            alphabet: gen::alphabet_all(),
+            // plus words that are typographic variants of operator characters: words like any other
+            alphabet: gen::alphabet_all().into_iter().chain(["×", "÷", "−", "∗", "⁄"].iter().map(|w| gen::tok(w))).collect(),
             maxlen: if t { 4 } else { 3 },
             plans: if t { 6 } else { 4 },
         }),
